@@ -15,6 +15,9 @@ RULE = (
     'a case is (dtype pair, N, flags, offset, outlen delta); non-trivial = distinct (dtype pair, N, flags) with N_out>=0; '
     'each case run in the production build with canaries and in the bounds-sanitized build'
 )
+RULE += (
+    ' Added after seeded round 9: input views that are reversed, a column of a 2-D array, or a field of a record array.'
+)
 ASSUMPTIONS = [
     'values are chosen so that no partial sum overflows the output dtype',
     'an empty Python list cannot be typed by numba and is outside the domain',
